@@ -14,6 +14,7 @@ import Rare.Proofs.C15Api
 import Rare.Proofs.C15Rename
 import Rare.Proofs.C15StatOpen
 import Rare.Proofs.C15Replace
+import Rare.Proofs.C15CatchUp
 import Rare.Model.C15Wiring
 import Rare.Gen.C15
 /-!
@@ -1317,6 +1318,93 @@ theorem plain_replace_not_followed_counterexample :
   have hx' : some (⟨0, 0, 1⟩ : Handle) = some x := hx
   cases hx'
   cases hino
+
+/-! ## catching up: every appended byte IS delivered -/
+
+/-- **in_place_catches_up.**  Notify follow (-f or -F, from the start or `--tail`), the file stays in place:
+    from every reachable state, with a silent writer, some run of the fsnotify goroutine and the reader ends
+    with the delivered stream being EXACTLY the content of the file after the start position – every byte
+    appended so far has been delivered, once, in order (`onpath_steps_terminate`: every run gets there, each
+    step decreases `nmuP`). -/
+theorem in_place_catches_up (c0 : List β) (tail reopen : Bool) {s : NSt β}
+    (hr : NReach (srcN reopen) (ninit (some c0) tail) s) (hrm : s.removes = 0) :
+    ∃ s', NSysReach (srcN reopen) s s' ∧ s'.fs = s.fs ∧
+      s'.delivered = (s.fs.content 0).drop (start0 (some c0) tail) := by
+  have hi := ninv_reach (capW_ok reopen) (capD_ok reopen) (some c0) tail hr
+  obtain ⟨_, hp, p, hf⟩ := hi.inPlace rfl hrm
+  obtain ⟨s', hr', hi', hfs', hrm', x, hfx, hxj, hu⟩ :=
+    catch_up_aux (capW_ok reopen) (capD_ok reopen) 0 _ s (Nat.le_refl _) hi hp ⟨_, hf, rfl⟩ (Or.inr ⟨rfl, hrm⟩)
+  refine ⟨s', hr', hfs', ?_⟩
+  obtain ⟨hh, _, p', hf'⟩ := hi'.inPlace rfl (by rw [hrm']; exact hrm)
+  rw [hf'] at hfx
+  cases hfx
+  have hs := hi'.strong ⟨0, start0 (some c0) tail, p'⟩ (by simp [hf'])
+  simp only [unread, List.drop_eq_nil_iff] at hu
+  have hpl : p' = (s'.fs.content 0).length := by simp only at hs; omega
+  have hd := hi'.core.deliv
+  rw [hh, hf'] at hd
+  rw [hd, hpl, ← hfs']
+  simp [segments, extract_to_end]
+
+/-- **reopen_catches_up.**  Re-open follow (-F), notify reader, after ANY history of the full writer (append,
+    remove, create, rename away, atomic replace, other events): with a silent writer some run of goroutine and
+    reader ends with the file `j` that is at the path open and read to its end, and the delivered stream then
+    ends with the whole content of `j` from the handle's start – which is 0 for every file opened after the
+    start (only the initial file under `--tail` starts elsewhere): everything in the file at the path is
+    delivered, from its beginning, exactly once. -/
+theorem reopen_catches_up (c0 : Option (List β)) (tail : Bool) {s : NSt β}
+    (hr : NReachO (srcN true) (ninit c0 tail) s) (j : Nat) (hp : s.fs.path = some j) :
+    ∃ s', NSysReach (srcN true) s s' ∧ s'.fs = s.fs ∧ ∃ x, s'.f = some x ∧ x.ino = j ∧
+      (x.start = 0 ∨ (j = 0 ∧ x.start = start0 c0 tail)) ∧
+      s'.delivered = segments s.fs.content s'.hist ++ (s.fs.content j).drop x.start := by
+  have hi := ninvO_reach (capW_ok true) (capD_ok true) rfl c0 tail hr
+  obtain ⟨s', hr', hi', hfs', _, x, hfx, hxj, hu⟩ :=
+    reopen_catch_up (capW_ok true) (capD_ok true) rfl hi j hp
+  refine ⟨s', hr', hfs', x, hfx, hxj, ?_, ?_⟩
+  · rcases hi'.starts x (by simp [hfx]) with h1 | ⟨h1, h2⟩
+    · exact Or.inl h1
+    · exact Or.inr ⟨by rw [← hxj]; exact h1, h2⟩
+  · have hs := hi'.strong x (by simp [hfx])
+    simp only [unread, List.drop_eq_nil_iff] at hu
+    have hpl : x.pos = (s'.fs.content x.ino).length := by omega
+    have hd := hi'.core.deliv
+    rw [hfx] at hd
+    rw [hd, ← hfs', ← hxj]
+    simp only [Option.toList_some, segments_append, segments_single, hpl, extract_to_end]
+
+/-- Every run gets there: while the file at the path is open (and stays: re-open follow, or nothing removed
+    from a file present at the start), each step of goroutine or reader keeps it open and decreases `nmuP`. -/
+theorem onpath_steps_terminate (c0 : Option (List β)) (tail reopen : Bool) {w : Who} {s s' : NSt β}
+    (hr : NReach (srcN reopen) (ninit c0 tail) s) (hw : w ≠ .writer) (hs : NStep (srcN reopen) w s s')
+    (j : Nat) (hp : s.fs.path = some j) (hon : onPath s j)
+    (hst : reopen = true ∨ (c0.isSome = true ∧ s.removes = 0)) : onPath s' j ∧ nmuP s' < nmuP s :=
+  onpath_step (ninv_reach (capW_ok reopen) (capD_ok reopen) c0 tail hr) hw hs j hp hon hst
+
+/-- **poll_in_place_catches_up.**  The polling reader (-f or -F, from the start or `--tail`), the file stays in
+    place: from every reachable state, with a silent writer, finitely many steps of the reader end with the
+    delivered stream being EXACTLY the content of the file after the start position (the reader is deterministic
+    up to the size of each read: every run gets there). -/
+theorem poll_in_place_catches_up (c0 : List β) (tail reopen : Bool) {s : PSt β}
+    (hr : PReach (srcP reopen) (pinit (some c0) tail) s) (hrm : s.removes = 0) :
+    ∃ s', PSysReach (srcP reopen) s s' ∧ s'.fs = s.fs ∧
+      s'.delivered = (s.fs.content 0).drop (start0 (some c0) tail) := by
+  have hi := pinv_reach (cfg := srcP reopen) (some c0) tail hr
+  obtain ⟨s', hr', hi', hfs', hrm', hrb'⟩ :=
+    poll_catch_up_aux (attempts_ok reopen) rfl _ s (Nat.le_refl _) hi hrm
+  refine ⟨s', hr', hfs', ?_⟩
+  have hl := pinplace_len hi' rfl hrm'
+  rw [hl.1, hrb', hfs', extract_to_end]
+
+/-- Non-vacuity of `reopen_catches_up`: after an atomic replace with the reader not yet told (`Create` still
+    queued) the hypotheses hold with `j = 1`. -/
+example : ∃ s : NSt Nat, NReachO (srcN true) (ninit (some [1]) false) s ∧ s.fs.path = some 1 ∧
+    s.fs.content 1 = [2, 3] ∧ s.f = some ⟨0, 0, 0⟩ :=
+  ⟨_, .step (.refl (s0 := ninit (some [(1 : Nat)]) false)) (.replace _ 0 [2, 3] rfl), rfl, rfl, rfl⟩
+
+/-- Non-vacuity of the in-place statements: `--tail` on `[8,9]`, `[5]` appended, nothing read yet. -/
+example : ∃ s : NSt Nat, NReach (srcN false) (ninit (some [8, 9]) true) s ∧ s.removes = 0 ∧
+    s.fs.content 0 = [8, 9, 5] ∧ s.delivered = [] :=
+  ⟨_, .step (.refl (s0 := ninit (some [(8 : Nat), 9]) true)) (.append _ 0 [5] rfl (by decide)), rfl, rfl, rfl⟩
 
 /-! ## in-place truncation (copytruncate rotation) – outside the property, behaviour recorded -/
 
